@@ -65,6 +65,10 @@ def sample(env, c, n, seed):
                 s.add(t)
         # nudge integer inputs towards different values; drop the nudges if they conflict
         nudges = [v.t == rnd.choice([0, 1, 2, 3, 4, 5, 6, 7, 9, 10, 11, 12, 13, 23, 28, 29, 30, 31, 59, 99, 100, 365, 1999, 2020]) for v in ints]
+        from .values import REAL
+        for v in loc.values():
+            if isinstance(v, Sym) and v.kind == REAL:
+                nudges.append(v.t == z3.RealVal(rnd.choice(['0', '1/2', '1/100000', '12345678901234567', '3/2', '100', '1/3', '99999999999999999999'])))
         base = _dt.date(2019, 12, 1).toordinal()
         for d in dts:
             if isinstance(d.ord, Sym):
